@@ -46,7 +46,8 @@ const maxCompositeNesting = 20 // protect against malicious fonts
 
 // use the `glyf` table to fetch the contour points,
 // applying variation if needed.
-// for composite, recursively calls itself; allPoints includes phantom points and will be at least of length 4
+// for composite, recursively calls itself; allPoints includes phantom points and will be at least of length 4,
+// or empty if the glyph is invalid (missing component, too deep nesting)
 func (f *Face) getPointsForGlyph(gid tables.GlyphID, currentDepth int, allPoints *[]contourPoint /* OUT */) {
 	// adapted from harfbuzz/src/hb-ot-glyf-table.hh
 
@@ -91,7 +92,8 @@ func (f *Face) getPointsForGlyph(gid tables.GlyphID, currentDepth int, allPoints
 			f.getPointsForGlyph(item.GlyphIndex, currentDepth+1, &compPoints)
 
 			LC := len(compPoints)
-			if LC < phantomCount { // in case of max depth reached
+			if LC < phantomCount { // in case of max depth reached or invalid component
+				*allPoints = (*allPoints)[:0] // propagate the failure
 				return
 			}
 
@@ -194,6 +196,9 @@ func (f *Face) getGlyfPoints(gid tables.GlyphID, computeExtents bool) (ext Glyph
 	}
 	var allPoints []contourPoint
 	f.getPointsForGlyph(gid, 0, &allPoints)
+	if len(allPoints) < phantomCount { // invalid glyph
+		return
+	}
 
 	copy(ph[:], allPoints[len(allPoints)-phantomCount:])
 
